@@ -1327,7 +1327,7 @@ func (p *Parser) evaluateVarAssignment(ctx context) (Statement, error) {
 		if valueType != expectedValueType {
 			return nil, p.expectedError(fmt.Sprintf("%s but got %s", expectedValueType.String(), valueType.String()), valuesToken)
 		}
-		variables = append(variables, NewVariable(name, valueType, ctx.global(), isPublic(name)))
+		variables = append(variables, definedVariable) // Use the variable as it has been defined (name and scope), not as it looks from here.
 	}
 
 	if isMultiReturnFuncCall {
